@@ -7,6 +7,8 @@ R2  P returns success only through a successful CAS count -> count-1 with count 
 R3  the timed P defines ETIMEDOUT only under (wait result = -1 and errno = ETIMEDOUT and deadline <= now), and the comparison that decides
     "deadline <= now" is exact for every pair of times (= C18.R2);
 R4  V increments by CAS and then issues FUTEX_WAKE on every path on which the count it found may have been 0 (a sleeper can be blocked only then);
+R6  a failed CAS on the count is retried only with a freshly loaded expected value: every path from the CAS back to itself passes an atomic load
+    of the count (with a stale value the retry fails for ever once the count has moved on - P spins although posts are pending).
 R5  the timeout pointer is NULL exactly on the path where the deadline compared equal to nsync_time_no_deadline."""
 from .. import util, ir as IR, futexmodel
 from ..bounds import _guards, _norm_cmp
@@ -162,6 +164,29 @@ def _check_timeout_guards_in(mod, fn, dl, ET, rep, rid, extra=()):
             rep.violate(Violation(rid, _w(d, at), msg, site='nsync_mu_semaphore_p_with_deadline/etimedout-guards'))
     return len(defs)
 
+def check_cas_retry_reloads(mod, rep, rid):
+    from ..cfg import paths_avoiding
+    wrappers = util.cas_wrappers(mod)
+    n = 0
+    for fn in mod.defined.values():
+        if not (fn.file or '').endswith('nsync_semaphore_futex.c'):
+            continue
+        def on_count(ref):
+            return isinstance(ref, str) and util.last_field(util.addr_class(mod, fn, ref)) == futexmodel.FIELD
+        loads = set(id(i) for i in fn.real_insts() if i.op == 'load' and i.ord != 'na' and on_count(i.ops[0]))
+        for c in fn.real_insts():
+            is_cas = (c.op == 'cmpxchg' and on_count(c.ops[0])) or (c.op == 'call' and c.callee in wrappers and c.ops and on_count(c.ops[0]))
+            if not is_cas:
+                continue
+            n += 1
+            again = paths_avoiding(fn, c, lambda i: i is c, lambda i: id(i) in loads)
+            rep.instance(rid, '%s: CAS on the count at %s: every retry re-loads the count: %s' % (fn.name, c.where(), again is None)); rep.oblig(rid, again is None)
+            if again is not None:
+                rep.violate(Violation(rid, c.where(), '%s can retry this CAS without re-loading the count: the expected value is passed by value and stays stale after a failure, so once another thread has changed the count the loop can never succeed - the waiter spins for ever although posts are pending (a post does not make the wait return)' % fn.name,
+                                      site='%s/stale-cas-retry' % fn.name))
+    if n == 0:
+        raise AnalysisBroken('%s: no CAS on the semaphore count found' % rid)
+
 def run(ctx, rep):
     mod = ctx.mod('C')
     K = ctx.probe
@@ -237,6 +262,8 @@ def run(ctx, rep):
                     rep.violate(Violation('C12.R4', _where_fn(mod.func(name)), 'V can return without %s: a sleeper blocked in FUTEX_WAIT is not resumed'
                                           % ('incrementing the count' if x.ghost.get(('flag', 'inc')) != 1 else 'issuing FUTEX_WAKE'), site='%s/post-incomplete' % name))
     check_timeout_guards(mod, K, rep, 'C12.R3')
+    rep.rule('C12.R6', 'a failed CAS on the count is retried only after re-loading the count')
+    check_cas_retry_reloads(mod, rep, 'C12.R6')
     # ... and the clock re-check means what it says only if nsync_time_cmp orders every pair of times exactly (shared with C18.R2 / C15.R5)
     from . import C18
     C18.check(ctx, rep, {'cmp': 'C12.R3'})
